@@ -430,6 +430,51 @@ Theorem up_ihu_scale1_net : forall sds upa subnrow subncol ea, 0 < subncol -> le
 Proof. exact IhuScale1.up_ihu_scale1_net. Qed.
 Print Assumptions up_ihu_scale1_net.
 
+(* KNOWN FINDING F9c/F9d: the coarse network of ihu is NOT always loop-free, even for true cell-count upstream areas: two witnesses
+   (a 3-cycle made by ihu_optimize_rivlen, a 2-cycle made by ihu_minimize_error), found by random search with the extracted model
+   and reproduced against the implementation, where FlwdirRaster.upscale raises 'network is invalid'.  What holds: every cycle of
+   the result passes through a coarse cell that the last connection check did not flag as valid (a cell with an upscale error). *)
+From PF Require Import IhuLoop IhuLoopFlagged IhuLoopFlaggedIter.
+Theorem up_ihu_loop_refuted :
+  exists sds sq upa subnrow subncol cs ea, 0 < cs /\ 0 < subncol /\ length sds = subnrow * subncol /\ topo sds sq /\ complete sds sq /\
+    (forall t, t < length sds -> sd sds t < length sds -> in_d8 t (sd sds t) subncol = true) /\
+    check_cross sds ea subncol cs = true /\
+    (forall t, t < length sds -> sd sds t < length sds -> (0 < nth t upa 0)%Z) /\
+    (forall t, t < length sds -> sd sds t < length sds -> sd sds t <> t -> (nth t upa 0 < nth (sd sds t) upa 0)%Z) /\
+    (forall t, t < length sds -> sd sds t < length sds -> nth t upa 0%Z = acc1 sds upa t) /\
+    (let '(cds, _, (nrow, ncol)) := up_ihu sds upa subnrow subncol cs ea in
+     no_marker cds (nrow * ncol) /\ length cds = nrow * ncol /\ (exists k i, on_cycle cds (nrow * ncol) k i) /\ ~ loopfree cds (nrow * ncol)).
+Proof. exact IhuLoop.up_ihu_loop_refuted. Qed.
+Print Assumptions up_ihu_loop_refuted.
+Theorem up_ihu_loop_refuted_minimize_error :
+  exists sds sq upa subnrow subncol cs ea, 0 < cs /\ 0 < subncol /\ length sds = subnrow * subncol /\ topo sds sq /\ complete sds sq /\
+    (forall t, t < length sds -> sd sds t < length sds -> in_d8 t (sd sds t) subncol = true) /\
+    check_cross sds ea subncol cs = true /\
+    (forall t, t < length sds -> sd sds t < length sds -> (0 < nth t upa 0)%Z) /\
+    (forall t, t < length sds -> sd sds t < length sds -> sd sds t <> t -> (nth t upa 0 < nth (sd sds t) upa 0)%Z) /\
+    (forall t, t < length sds -> sd sds t < length sds -> nth t upa 0%Z = acc1 sds upa t) /\
+    (let '(cds, _, (nrow, ncol)) := up_ihu sds upa subnrow subncol cs ea in
+     no_marker cds (nrow * ncol) /\ length cds = nrow * ncol /\
+     (exists i j, i <> j /\ i < nrow * ncol /\ j < nrow * ncol /\ nth i cds (nrow * ncol) = j /\ nth j cds (nrow * ncol) = i) /\
+     ~ loopfree cds (nrow * ncol)).
+Proof. exact IhuLoop.up_ihu_loop_refuted_minimize_error. Qed.
+Print Assumptions up_ihu_loop_refuted_minimize_error.
+Theorem up_ihu_cycle_through_unflagged : forall sds sq upa subnrow subncol cs ea, 0 < cs -> 0 < subncol ->
+  length sds = subnrow * subncol -> topo sds sq -> complete sds sq ->
+  (forall t, t < length sds -> sd sds t < length sds -> in_d8 t (sd sds t) subncol = true) ->
+  check_cross sds ea subncol cs = true ->
+  (forall t, t < length sds -> sd sds t < length sds -> (0 < nth t upa 0)%Z) ->
+  let '(cds, out, (nr, ncl)) := up_ihu sds upa subnrow subncol cs ea in
+  exists (a1 : A) (p1 : nat),
+    let c := upscale_check sds cs nr ncl (a_out a1) (a_cds a1) in
+    let a2 := {| a_cds := a_cds a1; a_out := a_out a1; a_st := c_st c;
+                 a_err := if c_ok c then a_err a1 else if Nat.eqb (a_err a1) 0 then 1 else a_err a1 |} in
+    let res := minimize_error sds upa subncol cs nr ncl (c_fix c) p1 (optimize_rivlen sds upa subncol cs nr ncl (c_valid c) (c_short c) a2) in
+    cds = a_cds res /\ out = a_out res /\
+    (forall k i, on_cycle cds (nr * ncl) k i -> exists j, j < k /\ nth (iter_ds cds (nr * ncl) j i) (c_valid c) true = false).
+Proof. exact IhuLoopFlaggedIter.up_ihu_cycle_through_unflagged. Qed.
+Print Assumptions up_ihu_cycle_through_unflagged.
+
 (* TIE BY TRANSLATION: the non-iterative upscaling kernels of upscale.py regenerated from the source on every run
    (generated/GenUpscale.v, tools/gen_upscale.py: `while True ... break` loops become fuelled Fixpoints with the models' fuel and
    error values, the half-cell offsets of dmm_nextidx exact doubled integers, effective_area an abstract selector) ARE the
